@@ -191,6 +191,10 @@ func runC13(c *core.Ctx) {
 		c13Unreadable(c)
 		return
 	}
+	if os.Getenv("VERIF_UIDDROP_UNAVAILABLE") != "" {
+		c.Inconclusive("the unreadable-path sweep needs an unprivileged uid that can execute the harness binary; not possible at this location")
+		c.Obs("uid_drop_unavailable", 1)
+	}
 	n := c.Pick(400, 8000)
 	agree := int64(0)
 	nontrivial := int64(0)
@@ -553,7 +557,13 @@ func init() {
 			return nil
 		},
 		Floors: func(string) map[string]int64 {
-			return map[string]int64{"records_equal_to_reference": 1000, "both_error": 100, "run_links_equal_to_reference": 100, "record_links_equal_to_reference": 100, "match_products_equal_to_reference": 100, "unreadable_path_cases_with_required_error": 20}
+			return map[string]int64{"records_equal_to_reference": 1000, "both_error": 100, "run_links_equal_to_reference": 100, "record_links_equal_to_reference": 100, "match_products_equal_to_reference": 100}
+		},
+		Post: func(a *core.Aggregate, workDir string) {
+			// floor for the unreadable-path sweep (unless the uid drop is impossible where the tree lives)
+			if a.Obs["uid_drop_unavailable"] == 0 && a.Obs["unreadable_path_cases_with_required_error"] < 20 {
+				a.Broken = append(a.Broken, fmt.Sprintf("observation floor missed: unreadable_path_cases_with_required_error=%d<20", a.Obs["unreadable_path_cases_with_required_error"]))
+			}
 		},
 		Run:      runC13,
 		TimeoutS: func(t string) int { return 1800 },
